@@ -18,6 +18,13 @@ func main() {
 		}
 	}()
 	lib := ast.NewKnowledgeLibrary()
-	err := builder.NewRuleBuilder(lib).BuildRuleFromResource("A", "1", pkg.NewBytesResource([]byte(os.Args[1])))
-	fmt.Println(err)
+	for _, t := range os.Args[1:] {
+		err := builder.NewRuleBuilder(lib).BuildRuleFromResource("A", "1", pkg.NewBytesResource([]byte(t)))
+		fmt.Println("build:", err)
+	}
+	for k, e := range lib.GetKnowledgeBase("A", "1").RuleEntries {
+		fmt.Printf("entry %q name=%q when=%v then=%v\n", k, e.RuleName, e.WhenScope != nil, e.ThenScope != nil)
+	}
+	_, err := lib.NewKnowledgeBaseInstance("A", "1")
+	fmt.Println("instance:", err)
 }
